@@ -193,8 +193,8 @@ def run(ctx):
         if cand is None:
             break
         kw = {"axis": axis} if axis is not None else {}
-        tpl = T.add(cand, T.app("log", T.app("sum", T.app("exp", T.sub(x, cand)), **kw)))
-        tpl2 = T.add(cand, T.app("log", T.app("sum", T.app("exp", T.sub(x, cand)))))
+        tpl = spec("c + log(sum(exp(x - c), axis=axis))", c=cand, x=x, axis=axis) if axis is not None else None
+        tpl2 = spec("c + log(sum(exp(x - c)))", c=cand, x=x)
         if ret in (tpl, tpl2):
             ok = True
             detail = f"logsumexp(x) == c + log(sum(exp(x - c))) with c = {T.show(cand)}"
